@@ -129,7 +129,8 @@ class Engine(ExprMixin, StmtMixin, CallMixin):
             if isinstance(base, RefV) and base.kind == 'rec':
                 # a field the path never assigned: an unknown value (nothing can be proved about it)
                 return OpaqueV(fresh('absent_' + attr, USort), 'absent field ' + attr)
-            if isinstance(base, (OpaqueV, NoneV)):
+            if isinstance(base, (OpaqueV, NoneV, BoolV, IntV)):
+                # (an attribute of a scalar only occurs in a clause under a guard that excludes it: unknown value, nothing can be proved from it)
                 return OpaqueV(fresh('absent_' + attr, USort), 'field of unknown')
             raise Unsupported('contract attribute .%s of %r' % (attr, base))
 
